@@ -583,6 +583,81 @@ def r18_join_aggregators(ctx, rule='R18'):
     return table
 
 
+def r18_target_field(ctx, rule='R18t'):
+    """join: what the package phase declares for an aggregate: type = the aggregator's dataType, or the source field's type when that
+    is None (the premise of R18); the source field's other properties (format, constraints) are carried over exactly for the
+    aggregators that say copyProperties - a `first` over dates in a custom format is only valid with that format."""
+    from sa.paths import Enumerator, RAISE, path_nodes
+    from sa.pathvals import PathValues
+    from sa.pattern import match_expr
+    run = ctx.run
+    run.rule(rule, 'TARGET-FIELD(join): the field declared for an aggregate is {name: <target name>, type: dataType or the type of the '
+                   'source field} on top of a deep copy of the source field exactly when the aggregator copies properties, of nothing otherwise')
+    cands = [f for f in ctx.repo.functions.values() if f.module.name == 'dataflows.processors.join' and f.parent is not None
+             and not isinstance(f.node, ast.Lambda) and any(isinstance(n, ast.Attribute) and n.attr == 'dataType' for n in own_nodes(f.node))]
+    if len(cands) != 1:
+        raise AnalysisError('join: the function that declares the target fields (reads AGGREGATORS[..].dataType) was not found')
+    f = ctx.N(cands[0])
+    loops = [l for l in own_nodes(f.node) if isinstance(l, ast.For) and any(isinstance(n, ast.Attribute) and n.attr == 'dataType'
+                                                                           for n in ast.walk(l))]
+    if len(loops) != 1:
+        raise AnalysisError('%s: loop over the field specs not found' % f.qualname)
+    n = 0
+    kinds = set()
+    for p in Enumerator(where=f.qualname).body_paths(loops[0]):
+        if p.term == RAISE:
+            continue
+        nodes = list(path_nodes(p, into_loops=True))
+        apps = [c for c in nodes if isinstance(c, ast.Call) and isinstance(c.func, ast.Attribute) and c.func.attr == 'append'
+                and len(c.args) == 1 and isinstance(c.args[0], ast.Name)]
+        if not apps:
+            continue        # an existing target field is reused (R18r decides when that is allowed)
+        pv = PathValues(p)
+        g = {}
+        from sa.model import norm_compare, norm_guard
+        for t, pol in pv.guards:
+            t, pol = norm_guard(t, pol)
+            t, pol = norm_compare(t, pol)
+            tx = u(t)
+            if tx.endswith('.dataType is None'):
+                g['typed_by_source'] = pol
+            elif tx.endswith('.dataType is not None'):
+                g['typed_by_source'] = not pol
+            elif tx.endswith('.copyProperties'):
+                g['copies'] = pol
+        name = apps[0].args[0].id
+        base = pv.value(name)
+        ups = [c.value for o_, c in pv.stmts if isinstance(c, ast.Expr) and isinstance(c.value, ast.Call)
+               and isinstance(c.value.func, ast.Attribute) and c.value.func.attr == 'update' and len(c.value.args) == 1
+               and isinstance(c.value.args[0], ast.Dict)]
+        n += 1
+        ok = len(apps) == 1 and len(ups) == 1 and base is not None
+        if ok:
+            d = {k.value: v for k, v in zip(ups[0].args[0].keys, ups[0].args[0].values) if isinstance(k, ast.Constant)}
+            ok = set(d) == {'name', 'type'} and isinstance(d['name'], ast.Name)
+            ty = u(d['type']) if ok else ''
+            if g.get('typed_by_source'):
+                ok = ok and ty.endswith("['type']") and 'source' in ty
+                if g.get('copies'):
+                    ok = ok and match_expr('copy.deepcopy(__F)', base) is not None and 'source' in u(base)
+                    kinds.add('copied')
+                else:
+                    ok = ok and isinstance(base, ast.Dict) and not base.keys
+                    kinds.add('typed by source')
+            else:
+                ok = ok and ty.endswith('.dataType') and isinstance(base, ast.Dict) and not base.keys
+                kinds.add('typed by aggregator')
+        run.check(ok, rule, where(ctx.repo, loops[0]), f.qualname,
+                  'append({**(copy of the source field if copyProperties), name: target name, type: dataType or source type})',
+                  'the field declared for an aggregate does not take its type from the aggregator (or from the source field when the '
+                  'aggregator has none) or does not carry the source field\'s properties exactly when the aggregator copies them',
+                  path=p.describe())
+    run.floor(rule, n, 3, 'paths that declare a new target field')
+    run.check(kinds == {'copied', 'typed by source', 'typed by aggregator'}, rule, f.where, f.qualname,
+              'three ways to declare a target field: ' + ', '.join(sorted(kinds)),
+              'one of the three cases (typed by the aggregator; typed by the source field; source field copied) is no longer distinguished')
+
+
 ACF_OPS = ['sum', 'avg', 'max', 'min', 'multiply', 'constant', 'join', 'format']
 
 
@@ -620,6 +695,11 @@ def r18_computed_field(ctx, rule='R18c'):
                       'operation %r over %s -> %s, get_type declares %s' % (op, T, '|'.join(sorted(types)), declared),
                       'add_computed_field %r over %s fields computes %s but the new field is declared %s'
                       % (op, T, '/'.join(bad), declared))
+        # a source of type 'any' can hold anything: so can the result, whatever the operation
+        if op not in ('constant',):
+            declared = fold_function(gt.node, dict(zip(gt.params, [[dict(name='a', type='any'), dict(name='b', type='integer')], ['a', 'b'], op])))
+            run.check(declared == 'any', rule, gt.where, gt.qualname, 'operation %r over an any-typed source -> %s' % (op, declared),
+                      'a field computed from an any-typed source is declared %s: values of any kind then fail validation' % declared)
         # constant without sources -> any
         if op == 'constant':
             declared = fold_function(gt.node, dict(zip(gt.params, [[], [], op])))
